@@ -228,6 +228,10 @@ class C07(Prop):
                 refs.append('--fd-%s=%s' % (n, ref % nm))
             wc['cmd'] = 'worker --marker=%s %s' % (wc['marker'],
                                                    ' '.join(refs))
+            if rng.random() < 0.3:
+                # the socket as the worker's stdin (inetd style): with or
+                # without use_sockets, nothing else may come along
+                wc['opts']['stdin_socket'] = rng.choice(names)
         n = rng.choice([2, 4, 6, 8]) if tier == 'quick' else \
             rng.choice([6, 10, 16, 24])
         ops = gen.gen_history(rng, cfg, n, self.REQS, None, quiet_p=0.6)
